@@ -91,6 +91,28 @@ def run(ctx):
         beat = (sig_tot - sig_sig) if ("ase" in sel or sel == "all") else np.zeros(n)
         R = np.asarray(out.noise, dtype=float) - beat
         rows = [u for (u, sc) in t.rows() if sc is not None and np.asarray(u).shape == (n,)]
+        if not rows and sel != "ase-only":
+            # the library's draws were not recognisable (a legitimate refactoring of the generator): the statement's own statistical
+            # clause - variance of what the beating does not explain against the selected variances times the output filter's
+            # noise-equivalent gain, with an acceptance band calibrated on 300 reference realisations through the same filter
+            vals_ = {"kB": KB, "T": Tk, "Fn": 10 ** (Fn / 10), "B": fs / 2, "R": RL, "e": QE, "r": r_, "idark": idark,
+                     "P": float(np.sum(np.mean(np.abs(np.atleast_2d(x.signal)) ** 2, axis=-1)) + (np.sum(np.mean(np.abs(np.atleast_2d(x.noise)) ** 2, axis=-1)) if noisy else 0.0))}
+            want_var = 0.0
+            if "thermal" in sel or sel == "all":
+                want_var += evalmono(monos["thermal_A2"], vals_)
+            if "shot" in sel or sel == "all":
+                want_var += evalmono(monos["shot_signal_A2"], vals_) + evalmono(monos["shot_dark_A2"], vals_)
+            want_var *= RL ** 2
+            rr = np.random.RandomState(12345 + it)
+            refs = [np.asarray(LPF(rr.randn(n), BW).signal, dtype=float) for _ in range(300)]
+            rv, rm = [float(np.var(v_)) for v_ in refs], [abs(float(np.mean(v_))) for v_ in refs]
+            meas_var, meas_off = float(np.var(R)), float(np.mean(R)) - idark * RL
+            var_ok = (meas_var <= 1e-30 * max(np.max(np.abs(out.noise)) ** 2, 1e-300)) if want_var == 0 else (min(rv) / 1.3 <= meas_var / want_var <= max(rv) * 1.3)
+            off_ok = abs(meas_off) <= 1.5 * max(rm) * math.sqrt(max(want_var, 0.0)) + 1e-9 * abs(idark * RL) + 1e-300
+            events.append({"kind": "callstat", "sel": sel, "len_ok": True, "var_ok": bool(var_ok), "offset_ok": bool(off_ok)})
+            meta.append(("call", sel, npol, noisy))
+            ctx.case(("call-statistical", sel, npol, noisy), None)
+            continue
         basis = [np.asarray(LPF(np.asarray(u, dtype=float), BW).signal, dtype=float) for u in rows] + [np.ones(n)]
         A = np.array(basis).T
         coef, *_ = np.linalg.lstsq(A, R, rcond=None)
